@@ -25,6 +25,13 @@ theorem sites_match_code : sites.map (fun s => (s.fn, s.before, s.after)) = chec
 theorem tokens_known : (checkSites.all fun x => (x.2.2.1 ++ x.2.2.2).all fun t =>
     (tokenAccess t).isSome || t == "external_asset_id_balance_sub") = true := by decide
 
+/-- every site of the model has a check that the translator verified (fail-closed) to be an UNCONDITIONAL top-level
+statement `self.verifier.check_contract_in_inputs(self.panic_context, self.input_contracts, <id>)?;` whose `<id>` is
+the very expression every access to the target contract takes — which is what `runSite` assumes when it checks and
+accesses the same `target` on every path -/
+theorem checks_unconditional_on_accessed_id :
+    checkedIds.map (·.1) = sites.map (·.fn) ∧ (checkedIds.all fun x => !x.2.isEmpty) = true := by decide
+
 /-- CALL is the only site with contract-state accesses before the check -/
 theorem only_call_accesses_before_check :
     (sites.filter fun s => !(s.before.flatMap (fun t => (tokenAccess t).toList)).isEmpty).map (·.opcode) = ["CALL"] := by decide
